@@ -167,7 +167,33 @@ def rule_getstate(model):
     try:
         state = miniexec.run(fi.node, env, fi.module.globals)
     except miniexec.Unsupported as exc:
-        raise AnalysisError(f'__getstate__ not understood: {exc}')
+        # not evaluable as a whole (a test on a value): what can still be
+        # decided is that no non-volatile attribute is removed by name
+        dropped = []
+        for x in own_nodes(fi.node):
+            k_ = None
+            if isinstance(x, ast.Delete):
+                for t in x.targets:
+                    if isinstance(t, ast.Subscript) and isinstance(
+                            t.slice, ast.Constant):
+                        k_ = t.slice.value
+            elif isinstance(x, ast.Call) and isinstance(
+                    x.func, ast.Attribute) and x.func.attr == 'pop' and \
+                    x.args and isinstance(x.args[0], ast.Constant):
+                k_ = x.args[0].value
+            if k_ in keys and k_ not in volatile:
+                dropped.append((x, k_))
+        if not dropped:
+            raise AnalysisError(f'__getstate__ not understood: {exc}')
+        for x, k_ in dropped:
+            r.instance(fi.where, x, f'{k_} removed under a condition')
+            r.finding(fi.where, x, f'the attribute {k_} can be removed from '
+                      'the pickled state (under a condition on its value): '
+                      'a template that went through pickling or deepcopy '
+                      'no longer has it and falls back to whatever its '
+                      'readers assume, unlike the template it was copied '
+                      'from', node=x, ctx=fi)
+        return r
     if not isinstance(state, dict):
         raise AnalysisError('__getstate__ does not return a dict')
     kept = set(state)
